@@ -102,6 +102,11 @@ def _first_diff(a: str, b: str):
 
 def links_ok(root: FST, sig: str):
     """parent / pfield / .f / .a links agree with a fresh walk of the AST."""
+    with untraced():
+        _links_ok(root, sig)
+
+
+def _links_ok(root: FST, sig: str):
     for n in ast.walk(root.a):
         f = getattr(n, 'f', None)
         check(f is not None and f.a is n, sig + '.ast_without_fst', type(n).__name__)
